@@ -25,7 +25,7 @@ GEN = ['DtypeNames', 'FileNames', 'Headers']
 RULE = ('each case = a generated dataset written to disk (1.1 for the load path, 1.0 for the upgrade path), then one text field '
         '(file, row, column drawn uniformly over all text files incl. descriptor files and the version line) replaced by a string '
         'from a pool of ~30 payloads (side-effect expressions with a canary, path traversals, absolute paths, numbers, empty, '
-        'unicode, version lines, long strings); plus datasets with 5000 (thorough: up to 66000) image records; distinct non-trivial = distinct (file, column, payload class) reached')
+        'unicode, version lines, long strings); plus datasets with 5000 (thorough: up to 66000) image records and 50 times as many 3-D points (at most 300000); distinct non-trivial = distinct (file, column, payload class) reached')
 ASSUMPTIONS = [
     'that the interpreter does nothing else is OBSERVED through audit events (open, compile, exec, import, os.system, '
     'subprocess.Popen, socket.*, os.remove, os.rename, shutil.move, os.mkdir ...), not proved',
@@ -132,10 +132,10 @@ def cases(rng, tier):
     # size is part of "however the directory is made": datasets with thousands of image records (a benign payload)
     for nbig in ([5000] if tier == 'quick' else [1000, 5000, 20000, 66000]):
         o = kgen.Opts(p_part=0.8, id_pool=3, fancy_ids=False, ts_style='small', max_rows=3, image_pool=4, dtypes=['float32'],
-                      force_parts={'records_camera', 'keypoints', 'descriptors', 'global_features'})
+                      force_parts={'records_camera', 'keypoints', 'descriptors', 'global_features', 'points3d'})
         for _ in range(200):
             dbig = kgen.gen_dataset(rng, o)
-            if dbig['records_camera'] and dbig['keypoints']:
+            if dbig['records_camera'] and dbig['keypoints'] and dbig['points3d'] is not None:
                 break
         out.append({'path': 'load', 'd': dbig, 'pick': rng.randrange(10 ** 6), 'payload': '7', 'pclass': 'number',
                     'dtype_only': False, 'big': nbig})
@@ -267,6 +267,16 @@ def run_real(case):
                     with open(rc, 'a') as f:
                         f.write('\n' + '\n'.join(f'{10 ** 7 + i}, {dev}, big/{i // 100:03d}/{i:06d}.jpg' for i in range(case['big'])) + '\n')
             # the large datasets are loaded as they are (no crafted field): the question is what loading them does
+            if case.get('big'):
+                # ... and hundreds of thousands of 3-D points
+                pp = os.path.join(root, 'reconstruction', 'points3d.txt')
+                if os.path.exists(pp):
+                    head = [l for l in open(pp).read().split('\n') if l.startswith('#')]
+                    ncol = 6 if any('R' in l for l in head[1:]) else 3
+                    with open(pp, 'w') as f:
+                        f.write('\n'.join(head) + '\n')
+                        row = ','.join(['0.5'] * ncol) + '\n'
+                        f.write(row * min(case['big'] * 50, 300000))
             where = mutate_field(root, case, canary) if not case.get('big') else ('sensors/records_camera.txt', 0, -1, False)
             present = text_files(root)
             first = open(os.path.join(root, 'sensors', 'sensors.txt')).readline()
